@@ -732,14 +732,14 @@ impl<'tcx> Interp<'tcx> {
                 if e.len() < 64 {
                     let prb: Vec<Probe> = self.probes[probes_before.min(self.probes.len())..].iter().take(4096).cloned().collect();
                     let rw: Vec<Val> = self.reject_witness[rw_before_memo.min(self.reject_witness.len())..].to_vec();
-                    e.push((k, out.iter().map(|o| o.1.clone()).collect(), viol, prb, rw));
+                    e.push((k, out.iter().map(|o| o.1.strip_tags()).collect(), viol, prb, rw));
                 }
             }
         }
         if let Some(k) = memo_key {
             if !out.is_empty() && !self.over_budget {
                 let all = self.violations_since(&viol_before, &bi.short);
-                self.memo.insert(k, (out.iter().map(|o| o.1.clone()).collect(), all));
+                self.memo.insert(k, (out.iter().map(|o| o.1.strip_tags()).collect(), all));
             }
         }
         Ok(out)
